@@ -46,16 +46,29 @@ type PropConf struct {
 	SkipQuick   []string          `json:"thorough_only"`
 	Merge       []string          `json:"merge"`
 	Bounds      map[string]string `json:"bounds_text"`
+	FmtInts     bool              `json:"fmt_ints"`
 }
 
 func loadProps(verif string) (map[string]*PropConf, error) {
-	raw, err := os.ReadFile(filepath.Join(verif, "harness/props.json"))
+	dir := filepath.Join(verif, "harness/props")
+	ents, err := os.ReadDir(dir)
 	if err != nil {
 		return nil, err
 	}
-	var m map[string]*PropConf
-	if err := json.Unmarshal(raw, &m); err != nil {
-		return nil, fmt.Errorf("props.json: %v", err)
+	m := map[string]*PropConf{}
+	for _, e := range ents {
+		if !strings.HasSuffix(e.Name(), ".json") {
+			continue
+		}
+		raw, err := os.ReadFile(filepath.Join(dir, e.Name()))
+		if err != nil {
+			return nil, err
+		}
+		pc := &PropConf{}
+		if err := json.Unmarshal(raw, pc); err != nil {
+			return nil, fmt.Errorf("%s: %v", e.Name(), err)
+		}
+		m[strings.TrimSuffix(e.Name(), ".json")] = pc
 	}
 	return m, nil
 }
@@ -481,7 +494,7 @@ func cmdCheck(args []string) int {
 		for _, f := range pc.Merge {
 			mergeSet[f] = true
 		}
-		return b, sx.Config{Merge: mergeSet, Unwind: b.Unwind, MaxSteps: b.Steps, MaxPaths: b.MaxPaths, MaxTime: maxTime, SolverKind: *solverKind, SolverMS: b.SolverMS,
+		return b, sx.Config{FmtInts: pc.FmtInts, NoIfConv: os.Getenv("VERIF_NOIFCONV") != "", Merge: mergeSet, Unwind: b.Unwind, MaxSteps: b.Steps, MaxPaths: b.MaxPaths, MaxTime: maxTime, SolverKind: *solverKind, SolverMS: b.SolverMS,
 			BranchMS: b.BranchMS, Tier: tierN}
 	}
 	// explore all harnesses of a package concurrently
